@@ -987,7 +987,8 @@ class CircuitSerializer(serializer.Serializer):
                 p = arg_func_langs.float_arg_from_proto(
                     operation_proto.noisechannel.depolarizingchannel.probability
                 )
-                if not isinstance(p, float):
+                # float_arg_from_proto returns an int for integral values such as 0.0 and 1.0
+                if not isinstance(p, (float, int)):
                     raise ValueError(
                         f"Depolarizing noise probability {p} cannot be symbol or None"
                     )  # pragma: nocover
@@ -996,7 +997,7 @@ class CircuitSerializer(serializer.Serializer):
                     raise ValueError(
                         f"Depolarizing noise gate must have positive num_qubits: {num_qubits}"
                     )  # pragma: nocover
-                op = cirq.DepolarizingChannel(p=p, n_qubits=num_qubits)(*qubits)
+                op = cirq.DepolarizingChannel(p=float(p), n_qubits=num_qubits)(*qubits)
             elif which_channel_type == 'randomgatechannel':
                 p = arg_func_langs.float_arg_from_proto(
                     operation_proto.noisechannel.randomgatechannel.probability
